@@ -246,6 +246,23 @@ struct gauss_seidel {
 
                     level[i] = l;
                     nlev = std::max(nlev, l+1);
+
+                    // Row i reads the current (not yet updated) values of
+                    // the unknowns that are swept after it. The rows owning
+                    // those unknowns have to wait for row i even if they do
+                    // not reference it (structurally non-symmetric matrix),
+                    // so they are moved to a higher level:
+                    for(auto a = row_begin(A, i); a; ++a) {
+                        ptrdiff_t c = a.col();
+
+                        if (forward) {
+                            if (c <= i) continue;
+                        } else {
+                            if (c >= i) continue;
+                        }
+
+                        level[c] = std::max(level[c], l+1);
+                    }
                 }
 
 
